@@ -624,27 +624,40 @@ def Expr.noQuery : Expr → Bool
   | .bin _ l r => l.noQuery && r.noQuery
   | _ => true
 
-/-- op_t::print's token sequence is the fully parenthesised rendering (for trees without `?:`) -/
-theorem printToks_eq_render (e : Expr) (he : e.isOpTree = true) (hq : e.noQuery = true) :
-    ∀ L, render true L e = printToks e := by
+/-- op_t::print's token sequence is the fully parenthesised rendering – for every
+    operator tree when the O_COLON node gets no parentheses of its own (`pc = false`),
+    for trees without `?:` otherwise -/
+theorem printToksAux_eq_render (pc : Bool) (e : Expr) (he : e.isOpTree = true) (hq : pc = true → e.noQuery = true) :
+    ∀ L, render true L e = printToksAux pc .none e := by
   induction e with
-  | val v => intro L; simp [render, printToks, printToksAux]
-  | ident n d => intro L; simp [render, printToks, printToksAux]
+  | val v => intro L; simp [render, printToksAux]
+  | ident n d => intro L; simp [render, printToksAux]
   | un op e ih =>
     intro L
     simp only [Expr.isOpTree, Bool.and_eq_true] at he
-    simp only [Expr.noQuery] at hq
-    have := ih he.1 hq 11
-    simp only [printToks] at this
-    simp [render, printToks, printToksAux, wrapParen, this]
+    have := ih he.1 (fun h => by simpa [Expr.noQuery] using hq h) 11
+    simp [render, printToksAux, wrapParen, this]
   | bin op a b iha ihb =>
     intro L
     simp only [Expr.isOpTree, Bool.and_eq_true] at he
-    simp only [Expr.noQuery, Bool.and_eq_true] at hq
-    have h1 := iha he.1 hq.1 op.lvl
-    have h2 := ihb he.2 hq.2 (op.lvl + 1)
-    simp only [printToks] at h1 h2
-    simp [render, printToks, printToksAux, wrapParen, h1, h2]
-  | _ => simp_all [Expr.isOpTree, Expr.noQuery]
+    have hq' : pc = true → a.noQuery = true ∧ b.noQuery = true := fun h => by simpa [Expr.noQuery] using hq h
+    have h1 := iha he.1 (fun h => (hq' h).1) op.lvl
+    have h2 := ihb he.2 (fun h => (hq' h).2) (op.lvl + 1)
+    simp [render, printToksAux, wrapParen, h1, h2]
+  | query c a b ihc iha ihb =>
+    intro L
+    cases pc with
+    | true => simp [Expr.noQuery] at hq
+    | false =>
+      simp only [Expr.isOpTree, Bool.and_eq_true] at he
+      have h1 := ihc he.1.1 (fun h => by cases h) 5
+      have h2 := iha he.1.2 (fun h => by cases h) 5
+      have h3 := ihb he.2 (fun h => by cases h) 5
+      simp [render, printToksAux, wrapParen, h1, h2, h3]
+  | _ => simp_all [Expr.isOpTree]
+
+theorem printToks_eq_render (e : Expr) (he : e.isOpTree = true) (hq : e.noQuery = true) :
+    ∀ L, render true L e = printToks e :=
+  printToksAux_eq_render _ e he (fun _ => hq)
 
 end Ledger
